@@ -1627,6 +1627,68 @@ fn hardening_ops(rng: &mut Rng, tier: Tier, emit: &mut dyn FnMut(String)) {
     }
 }
 
+/// one main transition constraint of degree `dm` and one auxiliary transition constraint of degree
+/// `da` (a running product over `(c_0 + r_0)^(da-1)`): the constraint-evaluation blowup
+/// `next_power_of_two(degree - 1)` of each segment is chosen independently, so that the maximum over
+/// BOTH degree lists decides the domain `AirContext::new_multi_segment` / `StarkDomain::new(&air)` build
+fn class_desc(n: usize, dm: u32, da: u32) -> AirDesc {
+    let rule = Expr::add(Expr::pow(Expr::Cur(0), dm), Expr::Const(3));
+    let c = Expr::sub(Expr::Nxt(0), rule.clone());
+    let constraints = vec![Constraint { degree: c.degree(&[], n), expr: c }];
+    let cols = vec![ColGen::Step { init: None, expr: rule }, ColGen::Rand];
+    let assertions = vec![AssertDesc::single(0, 0), AssertDesc::single(1, 2)];
+    let mut d = AirDesc { width: 2, trace_len: n, exemptions: 1, tail_junk: false, periodic: vec![], cols, constraints, assertions, aux: None };
+    let step = Expr::mul(Expr::AuxCur(0), Expr::pow(Expr::add(Expr::Cur(0), Expr::Rand(0)), da - 1));
+    let c = Expr::sub(Expr::AuxNxt(0), step.clone());
+    let acons = vec![Constraint { degree: c.degree(&[], n), expr: c }];
+    let acols = vec![AuxGen::Acc { init: Expr::Const(1), step }];
+    let aasserts = vec![AuxAssertDesc { a: AssertDesc::single(0, 0), value: Expr::Const(1) }];
+    d.aux = Some(AuxDesc { width: 1, num_rands: 1, lagrange: false, cols: acols, constraints: acons, assertions: aasserts });
+    d
+}
+
+/// every ordered pair (blowup class of the main constraints, blowup class of the auxiliary
+/// constraints) for constraint-evaluation blowups 2, 4, 8, 16: aux above, equal to and below main, with
+/// the degrees on both edges of each class (2|3, 4|5, 6|9, 10|17); the domain comes from the real
+/// `AirContext` through `StarkDomain::new(&air)`, the LDE blowup is the larger class (and above it)
+fn blowup_class_ops(rng: &mut Rng, tier: Tier, emit: &mut dyn FnMut(String)) {
+    let classes: [(usize, u32, u32); 4] = [(2, 2, 3), (4, 4, 5), (8, 6, 9), (16, 10, 17)];
+    let mut i = 0usize;
+    for (cm, mlo, mhi) in classes {
+        for (ca, alo, ahi) in classes {
+            let field = FieldId::ALL[i % FieldId::ALL.len()];
+            // (degree 10 over 8 rows needs only 64 of the 128 points: the prover's debug check of the
+            // evaluation domain size rejects it, so the largest class runs over 16 and 32 rows)
+            let n = if cm.max(ca) == 16 { if i % 2 == 0 { 16 } else { 32 } } else if i % 2 == 0 { 8 } else { 16 };
+            let (dm, da) = match i % 4 {
+                0 => (mlo, alo),
+                1 => (mhi, ahi),
+                2 => (mlo, ahi),
+                _ => (mhi, alo),
+            };
+            let d = class_desc(n, dm, da);
+            let ceb = cm.max(ca);
+            debug_assert_eq!(d.min_blowup(), ceb);
+            let ext = *rng.pick(&exts(field));
+            emit(def_line(field, ext, ceb, &format!("s{}.3", rng.below(1000)), &d));
+            if ceb <= 8 {
+                emit(def_line(FieldId::ALL[(i + 1) % FieldId::ALL.len()], 1, ceb * 2, &format!("s{}.3", rng.below(1000)), &d));
+            }
+            // explicit data (also computed by the Lean model) while the evaluation domain is small
+            if n * ceb <= 64 {
+                if let Some(l) = explicit_line(field, 1, ceb, rng.below(1000), 2, &d) {
+                    emit(l);
+                }
+            }
+            // a real proof through the real verifier for the pairs with aux above main (and one each of the others)
+            if (ca > cm && ceb <= 8) || (tier == Tier::Thorough && ceb <= 8) || i % 5 == 0 && ceb <= 4 {
+                emit(format!("ood {} {} {} {}", field.name(), OptSpec::new(4, ceb.max(4), 0, ext, 4, 7).to_text(), rng.below(1000), d.to_line()));
+            }
+            i += 1;
+        }
+    }
+}
+
 fn def_line(field: FieldId, ext: u8, blowup: usize, data: &str, d: &AirDesc) -> String {
     format!("def {} {} {} {} {}", field.name(), ext, blowup, data, d.to_line())
 }
@@ -1869,6 +1931,7 @@ impl Prop for P {
         boundary_ops(rng, tier, emit);
         structured_ops(rng, tier, emit);
         hardening_ops(rng, tier, emit);
+        blowup_class_ops(rng, tier, emit);
         let mut big = big_explicit_ops(rng, tier);
         let every = (n / (big.len() + 1)).max(1);
         for i in 0..n {
